@@ -851,7 +851,21 @@ impl<'a> G<'a> {
                 }
             }
             if self.pm(self.p.guards) {
-                let g = if self.pm(self.p.errors) { self.bad_expr() } else { self.guard(all_ids) };
+                let g = if self.pm(self.p.errors) {
+                    self.bad_expr()
+                } else if self.p.dm != Dm::Null && self.pm(self.p.event_fields) && self.rng.chance(1, 3) {
+                    // a guard that reads _event during selection: it must see the event being processed
+                    match self.rng.below(3) {
+                        0 => {
+                            let d = t.events[0].trim_end_matches(".*").trim_end_matches('.').to_string();
+                            Expr::Eq(Box::new(Expr::EventName), Box::new(Expr::Str(d)))
+                        }
+                        1 => Expr::Eq(Box::new(Expr::EventField("type".into())), Box::new(Expr::Str(self.rng.pick(&["internal", "external", "platform"]).to_string()))),
+                        _ => Expr::Not(Box::new(Expr::Eq(Box::new(Expr::EventName), Box::new(Expr::Str(self.rng.pick(ALPHABET).to_string()))))),
+                    }
+                } else {
+                    self.guard(all_ids)
+                };
                 t.cond = Some(g);
             }
         }
